@@ -738,6 +738,11 @@ impl Actor {
         }
         self.close_all();
         self.tasks.abort_all();
+        // Requests queued behind the shutdown are never processed. Drop them, so that their
+        // reply channels close and the callers get an error instead of waiting forever (the
+        // queue itself lives as long as any `SyncHandle` clone, which the callers hold).
+        self.action_rx.close();
+        while self.action_rx.try_recv().is_ok() {}
         debug!("docs actor shutdown");
         if let Some(reply) = reply {
             reply.send(self.store).ok();
